@@ -280,3 +280,7 @@ EXPLANATION = EXPLANATION + " " + (
 # session 5 (round 10)
 EXPLANATION = EXPLANATION + " " + (
     'FIELD/reset-flags (shared with C14): reset_keep sets every defined flag bit, so a reset stream asks for its dictionary like a fresh one.')
+
+# session 5 (round 11)
+EXPLANATION = EXPLANATION + " " + (
+    'The pins of deflate_rle (round 11, shared): the run length is clamped to the lookahead, so stale window bytes of an earlier stream cannot influence it.')
